@@ -87,6 +87,9 @@ def parseOd (s : String) : Option (Option Nat) :=
 def step (args : List String) : String :=
   match args with
   | "hist" :: own :: od :: toks =>
+    -- `o<id>` / `z<id>`: the node objects were created with node id None / 0 and took <id> from the
+    -- dictionary (`BaseNode.id = node_id or od.node_id`); from then on everything uses that id
+    let own := if own.startsWith "o" ∨ own.startsWith "z" then (own.drop 1).toString else own
     match parseNat own, parseOd od, toks.mapM parseStep with
     | some own, some od, some ops =>
       dashIfEmpty (String.intercalate " | " (runShow (Sys.init own od) ops))
